@@ -128,6 +128,11 @@ def coq_make(targets, timeout=1500):
     return rc == 0, out
 
 
+# the axioms the standard library declares for its real numbers and classical logic; Flocq's rounding theorems (time stamps, C07/C12) use them
+REAL_AXIOMS = (r"ClassicalDedekindReals\.sig_not_dec", r"ClassicalDedekindReals\.sig_forall_dec",
+               r"FunctionalExtensionality\.functional_extensionality_dep", r"Classical_Prop\.classic")
+
+
 def print_assumptions(prop_v, timeout=600):
     """Re-run coqc on a property file (its dependencies are built) and return {theorem: [axioms]}."""
     import shutil
